@@ -182,6 +182,15 @@ def lockUpdate (p : Pub) (n : Nat) : Pub × List Nat × Bool :=
             notifs := if doNotify then p.notifs ++ [[n]] else p.notifs },
    obsolete, doNotify)
 
+/-- the lock section of the unrepaired code (D13): every completed snapshot is obsolete, `completed := [n]` -/
+def lockUpdateOld (p : Pub) (n : Nat) : Pub × List Nat × Bool :=
+  let obsolete := p.completed
+  ({ p with completed := [n],
+            inflight := p.inflight.filter (· ≠ (n, true)),
+            removes := if obsolete.isEmpty then p.removes else p.removes ++ [obsolete],
+            notifs := if obsolete.isEmpty then p.notifs else p.notifs ++ [[n]] },
+   obsolete, !obsolete.isEmpty)
+
 def step (s : Sys) : Act → Option (Sys × List Obs)
   | .call c =>
     let (st', r, fin) := Store.step s.store c
